@@ -22,7 +22,7 @@ META = {
         "with CRLF tried before CR; the list rule — evaluated as a PEG over abstract line-level words — accepts blank lines, full-line comments and a final line with or without a "
         "line break, and rejects two transactions on one line. R5: every keyword that can follow `money` and could lex as a currency code is excluded by the "
         "currency look-ahead, and no ISO-4217 code is excluded. R6: the consumers are evaluated symbolically on every derivation tree: a tree without a currency node yields a GBP amount, "
-        "a tree without a FEES/TAX node yields zero GBP in fees/tax_paid, a tree with one yields the clause's own value. R7: every CgtError built in the parser module is ParseError. R8: the currency-code consumer folds the case before the ISO look-up. R9: atomic and compound-atomic grammar rules are single lexemes (a keyword and its operand are never inside one atomic rule, so implicit whitespace applies between them). R7 also: a pest error from a child consumer is passed on, not rebuilt on another node."),
+        "a tree without a FEES/TAX node yields zero GBP in fees/tax_paid, a tree with one yields the clause's own value. R7: every CgtError built in the parser module is ParseError. R8: the currency-code consumer folds the case before the ISO look-up. R9: atomic and compound-atomic grammar rules are single lexemes (a keyword and its operand are never inside one atomic rule, so implicit whitespace applies between them). R7 also: a pest error from a child consumer is passed on, not rebuilt on another node, and the grammar is run on the caller's text itself (no trim/slice/replace before `Parser::parse`, which would shift every reported line/column)."),
     "trusted_base": ["pest semantics of implicit WHITESPACE/COMMENT skipping and silent rules (pest 2.8 generator, read)",
                      "pest_meta parses the grammar exactly as pest_derive does", "syn token structure of match_nodes! arms"],
 }
@@ -572,6 +572,33 @@ def error_locations(F, rep):
     rep.count("pest_error_map_err_sites", n)
 
 
+def parsed_text_is_the_input(F, rep):
+    """R7 (line and column are those of the user's file): pest computes positions on the text it is given. The parser entry hands
+    its own parameter to `Parser::parse` unchanged; a `trim`, a slice or a replacement in between makes every reported position
+    relative to the transformed text (leading blank lines removed → every line number too small; seeded change C13-s7)."""
+    from mir import Terms, parse_callee, show
+    n = 0
+    for b in F.bodies.values():
+        if b.crate != "cgt_core" or "::parser::" not in b.id:
+            continue
+        tb = None
+        for i, t in b.calls():
+            if parse_callee(t["callee"])[2] not in ("parse", "parse_with_userdata") or "pest" not in t["callee"] or len(t["args"]) < 2:
+                continue
+            tb = tb or Terms(F, b, inline_depth=0)
+            x = tb.operand(t["args"][1])
+            while isinstance(x, tuple) and x and x[0] == "call" and parse_callee(x[1])[2] in ("as_str", "deref", "as_ref", "borrow", "as_mut_str") and len(x[2]) == 1:
+                x = x[2][0]
+            n += 1
+            ok = isinstance(x, tuple) and x and x[0] == "param"
+            rep.ob("R7", f"{b.short}:parsed-text", ok, "the grammar is run on the caller's text itself (positions are those of the file)" if ok else
+                   f"`{b.short}` runs the grammar on {show(x)[:120]}, not on its input: line/column of every error are relative to the transformed text",
+                   b.loc(t["sp"]), key=f"R7:{b.short}:parsed-text-transformed")
+    rep.count("grammar_entry_calls", n)
+    if n < 1:
+        rep.unresolved("R7", "grammar-entry", "no call of the pest parser found in the parser module")
+
+
 def whitespace_between_tokens(g, rep):
     """R9 (extra spaces or tabs between tokens): pest inserts its implicit WHITESPACE only inside NORMAL rules. An atomic (`@`) or
     compound-atomic (`$`) rule must therefore be one lexeme; one that holds a keyword AND an operand (`${ ^"RATIO" ~ " "+ ~ ratio }`)
@@ -639,6 +666,7 @@ def run(ctx, rep):
     defaults(S, g, rep)
     parser_errors(ctx.F, rep)
     error_locations(ctx.F, rep)
+    parsed_text_is_the_input(ctx.F, rep)
     currency_case(ctx.F, rep)
     # "a missing final newline" also at the seam between two input files: the CLI joins them with a line break (shared with
     # C06-R4); glued together, the last line of one file and the first of the next become one line — rejected, or swallowed
